@@ -450,6 +450,17 @@ impl<'a> IrEmitter<'a> {
                 } else if is_stdlib_testing {
                     vec![quote! { incan_stdlib }, quote! { testing }]
                 } else {
+                    // `format_ident!` panics on text that is not an identifier (e.g. `import python "os.path"`):
+                    // report it as an emission error instead.
+                    if let Some(bad) = path.iter().find(|s| {
+                        let mut chars = s.chars();
+                        !matches!(chars.next(), Some(c) if c == '_' || c.is_alphabetic())
+                            || !chars.all(|c| c == '_' || c.is_alphanumeric())
+                    }) {
+                        return Err(EmitError::Unsupported(format!(
+                            "import path segment '{bad}' is not a valid Rust identifier"
+                        )));
+                    }
                     path.iter()
                         .map(|s| {
                             let ident = format_ident!("{}", s);
